@@ -25,6 +25,10 @@ var filteredKinds = []string{"subwf", "subff", "clonewf", "cloneff", "sub", "clo
 // checkFiltered compares every ready filtered node with its filter applied to
 // its parent's cache, and every seeded mirror with its node's cache.
 func checkFiltered(r *Res, t *tree, what string, judgeMirrors bool) bool {
+	return checkFilteredP(r, t, "C06", what, judgeMirrors)
+}
+
+func checkFilteredP(r *Res, t *tree, prop string, what string, judgeMirrors bool) bool {
 	ok := true
 	for _, n := range t.nodes {
 		if n.cc == nil || n.kind == "root" {
@@ -39,7 +43,7 @@ func checkFiltered(r *Res, t *tree, what string, judgeMirrors bool) bool {
 		}
 		got := kit.SnapOf(own)
 		if kit.SnapDup(own) {
-			r.V("C06", "duplicate-key", "%s: %s cache lists a key twice", what, n)
+			r.V(prop, "duplicate-key", "%s: %s cache lists a key twice", what, n)
 			ok = false
 		}
 		if n.isFiltered() {
@@ -53,7 +57,7 @@ func checkFiltered(r *Res, t *tree, what string, judgeMirrors bool) bool {
 				r.Add("filtered-node-checks-nonempty", 1)
 			}
 			if !got.Equal(want) {
-				r.V("C06", "filtered-cache-mismatch", "%s: %s (filter %s, depth %d, deferred=%v) holds %v; its parent holds %v, of which the filter accepts %v",
+				r.V(prop, "filtered-cache-mismatch", "%s: %s (filter %s, depth %d, deferred=%v) holds %v; its parent holds %v, of which the filter accepts %v",
 					what, n, n.filter, t.depth(n), n.deferred, got, kit.SnapOf(pl), want)
 				ok = false
 			}
@@ -62,13 +66,13 @@ func checkFiltered(r *Res, t *tree, what string, judgeMirrors bool) bool {
 			if n.mir.isSeeded() {
 				r.Add("mirror-checks", 1)
 				if ms := n.mir.snap(); !ms.Equal(got) {
-					r.V("C06", "mirror-diverged", "%s: mirror of %s's own events is %v but its cache is %v; last events: %s", what, n, ms, got, tailEvents(n.mir.events(), 10))
+					r.V(prop, "mirror-diverged", "%s: mirror of %s's own events is %v but its cache is %v; last events: %s", what, n, ms, got, tailEvents(n.mir.events(), 10))
 					ok = false
 				}
 			} else {
 				n.mir.seed(got)
 			}
-			n.mir.report(r, "C06")
+			n.mir.report(r, prop)
 		}
 	}
 	return ok
